@@ -116,6 +116,11 @@ func handshakeBody(cfg hsCfg, carriers []carrier, overlap bool) vsched.Body {
 						pkts = append(pkts, more...)
 					}
 				}
+			} else if k.transport == "webtransport" {
+				wc := w.DialWT(0)
+				wc.Handshake()
+				x.Settle()
+				pkts, err = wc.Pkts()
 			} else {
 				ws = w.DialWS(k.eio, "", k.b64, false, "")
 				x.Settle()
@@ -262,6 +267,9 @@ func init() {
 													ks = append(ks, carrier{tr, eio, true, false})
 												}
 											}
+										}
+										if has(set, "webtransport") {
+											ks = append([]carrier{{"webtransport", 4, false, false}}, ks...)
 										}
 										if len(ks) == 0 {
 											continue
